@@ -104,6 +104,8 @@ type GuardDecl struct {
 	Fields           []string
 }
 
+var closureNameRe = regexp.MustCompile(`^(.*)__([0-9]+)$`)
+
 var kwRe = regexp.MustCompile(`^(requires|ensures|modifies|panics|may_panic|may_exit|unguarded|scope|keeps|define|panics_keep|panics_declared|loop|mode|extern|assumed|pure|props|noinline|uses|iface|hint|trigger|dead|same_as|instance)\b`)
 
 // parseContractFile reads //@ lines. pkgPath is the import path the file belongs to
@@ -497,6 +499,11 @@ func parseHeader(c *Contract, text string) error {
 		return fmt.Errorf("bad header %q", text)
 	}
 	name := fd.Name.Name
+	// a function literal: `func Outer__1(...)` stands for the first closure literal of Outer (go/ssa name Outer$1);
+	// its free variables are visible to the clauses under their source names
+	if m := closureNameRe.FindStringSubmatch(name); m != nil {
+		name = m[1] + "$" + m[2]
+	}
 	key := c.Pkg + "." + name
 	if fd.Recv != nil && len(fd.Recv.List) == 1 {
 		r := fd.Recv.List[0]
